@@ -71,6 +71,14 @@ func (m *Model) runOpTableStruct(s *Sink, rule string) {
 			}
 			if ec, ok := a.(*ssa.Call); ok && isEvalCall(m, ec) && i < len(disp.Params) {
 				// Eval(left) / Eval(right): the node argument is a parameter of evalInfixExp named by position
+				// ... or the Left / Right operand of the infix node handed to evalInfixExp
+				if _, path, ok := pathOf(stripIface(ec.Call.Args[1])); ok {
+					if strings.HasSuffix(path, ".Left") {
+						leftP = disp.Params[i]
+					} else if strings.HasSuffix(path, ".Right") {
+						rightP = disp.Params[i]
+					}
+				}
 				if p, ok := stripIface(ec.Call.Args[1]).(*ssa.Parameter); ok {
 					// position of p among outer's params: (e, operator, left, right, env)
 					for pi, q := range outer.Params {
